@@ -148,6 +148,41 @@ def run_nldf(case):
     return {"fail": fails, "evals": 2 * len(RHOS), "outcome": out}
 
 
+_FULLPLAN = {}
+
+
+def _sdmxfull_ueg(st, rho):
+    """SDMXFull has no closed form per (ratio, power, variant): the features the package computes for the uniform gas are
+    obtained by pushing the analytic projections of the uniform-gas density matrix onto the plan's auxiliary Gaussians
+    through the REAL plan's fit matrices (dense ladder 5e-4 x 1.6^45, as the package's own reference does); the l=1
+    features vanish by isotropy.  The feature order is the plan's."""
+    from scipy.special import erf
+
+    from ciderpress.dft.plans import SDMXFullPlan
+
+    if id(st) not in _FULLPLAN:
+        _FULLPLAN[id(st)] = SDMXFullPlan(st, 1, 0.0005, 1.6, 45)
+    plan = _FULLPLAN[id(st)]
+    k = (3 * np.pi ** 2 * rho) ** (1.0 / 3)
+
+    def proj(a):
+        rta = np.sqrt(a)
+        fac = 6 * 2 ** 0.75 * a ** 0.75 * np.pi ** 0.25 / k ** 3
+        return fac * (np.pi * erf(k / (2 * rta)) - k * np.sqrt(np.pi) / rta * np.exp(-k * k / (4 * a)))
+
+    al = plan.alphas
+    pr = (proj(al) / (np.pi / (2 * al)) ** -0.75 - proj(2 * al) / (np.pi / (4 * al)) ** -0.75) * plan.alpha_norms
+    n0 = plan.num_l0_feat
+    out = []
+    for i in range(st.nfeat):
+        if i < n0:
+            t = plan.fit_matrices[i].dot(pr)
+            out.append(-0.25 * float(t.dot(t)) * rho * rho)
+        else:
+            out.append(0.0)
+    return out
+
+
 def run_sdmx(case):
     from mc import fixtures as F
     from mc import nldf_defs as D
@@ -158,6 +193,8 @@ def run_sdmx(case):
     for rho in (0.3, 1.0, 7.0):
         u = np.asarray(st.ueg_vector(rho), dtype=float)
         ref = D.sdmx_ueg(st, rho)
+        if ref is None and type(st).__name__ == "SDMXFullSettings":
+            ref = _sdmxfull_ueg(st, rho)
         if ref is None:
             return {"fail": [], "evals": 0, "outcome": ["sdmx", case["cls"], "no documented closed form (deprecated SADM)"]}
         if u.shape != np.asarray(ref).shape:
